@@ -6,6 +6,9 @@ def T(shards=8, procs=2, timeout=600, **kw):
     return d
 
 CHECKS = {
+    "C19": {"pkg": "c19", "level": "exploration",
+            "quick": T(8, 2, 600), "thorough": T(14, 1, 2400),
+            "assumptions": ["export points are quiescent points (no Write racing the export)", "a corruption is judged 'semantically intact' by re-decoding the bytes through a gob mirror of the serialised layout"]},
     "C18": {"pkg": "c18", "level": "exploration",
             "quick": T(8, 2, 600), "thorough": T(14, 1, 2400),
             "assumptions": ["equality is structural with nil and empty slices identified", "seed encodings come from genuine traffic decoded by the independent decoder"]},
